@@ -36,6 +36,14 @@ theorem silent_after_closed (s : Sys) (hr : Reach enabled s) (e : Event) (he : e
 theorem verdict_correct (s : Sys) (hr : Reach enabled s) (e : Event) (he : enabled s e = true) :
     (sysStep s e).1.mon.verdictBad = false := (comps s hr e he).2.2.2.2.2.1
 
+/-- the verdict is exactly the one of the FIRST thing that made the wormhole start closing
+    (`Mon.cause`): a welcome carrying `error` ⇒ WelcomeError, a server `error` frame ⇒ ServerError,
+    an undecryptable peer message / PAKE without `pake_v1` ⇒ WrongPasswordError, close() ⇒ happy iff
+    a peer message had been verified else LonelyError, failed first connection ⇒
+    ServerConnectionError — on whichever connection (first or after any reconnect) it happens -/
+theorem verdict_is_first_cause (s : Sys) (hr : Reach enabled s) (e : Event) (he : enabled s e = true) :
+    (sysStep s e).1.mon.verdictWrong = false := (comps s hr e he).2.2.2.2.2.2.2
+
 /-- FULL statement of the resource clause: additionally the claim the server makes on behalf of
     an `allocate` is never left behind.  **False on the current tree** — see
     `resources_freed_fails_when_allocating`. -/
@@ -48,7 +56,7 @@ def resources_freed_full : Prop :=
     was closed with the mood of the verdict and the server connection is down.  Partial: the claim
     the server makes as a side effect of `allocate` is not covered (next theorem). -/
 theorem resources_freed_partial (s : Sys) (hr : Reach enabled s) (e : Event) (he : enabled s e = true) :
-    (sysStep s e).1.mon.resourceBad = false := (comps s hr e he).2.2.2.2.2.2
+    (sysStep s e).1.mon.resourceBad = false := (comps s hr e he).2.2.2.2.2.2.1
 
 /-- exactly-once, lower half (no trap): from every reachable state in which the application has
     called close() there is a finite run of cooperative environment steps (reconnect — possibly after
